@@ -863,9 +863,26 @@ func (r *Runner) runPar(ctx context.Context, st *Stack, b *Base, op Op) {
 		}
 	}
 	var wg sync.WaitGroup
+	// every request has a caller of its own, who may go away (schedule token "cancel": the request's context is cancelled)
+	cancels := map[string]context.CancelFunc{}
+	ctxs := map[string]context.Context{}
+	for _, o := range op.Ops {
+		ctxs[o.ID], cancels[o.ID] = context.WithCancel(ctx)
+	}
+	defer func() {
+		for _, c := range cancels {
+			c()
+		}
+	}()
+	r.Ctl.CancelFn = func(rid string) {
+		if c := cancels[rid]; c != nil {
+			r.Log.Emit(Ev{"ev": "CallerGone", "r": rid})
+			c()
+		}
+	}
 	run := func(o Op) {
 		defer wg.Done()
-		r.runSign(ctx, st, b, o)
+		r.runSign(ctxs[o.ID], st, b, o)
 		r.Ctl.Done(o.ID)
 	}
 	if op.Gate {
